@@ -504,21 +504,23 @@ Inductive ev :=
 | Recal (with_times : bool) (ct ot : Z).  (* authorised CALCFG recalibrate request *)
 
 Definition begin_event (d : dev) : dev := upd_relay d (up_on d) (down_on d) (start_time d) (stop_time d) (delayed d) (now d) [].
+Definition set_clock (d : dev) (t : Z) : dev := upd_misc d (last_direction d) t t.
+(* the delayed-trigger timer fires when it is due at or before the callback *)
+Definition fire_if_due (k : kcfg) (d : dev) (target : Z) : dev :=
+  match delayed d with
+  | Some (_, due, _) => if due <=? target then fire_delayed k d else d
+  | None => d
+  end.
+(* the state in which the timer callback starts, dt microseconds after the previous event *)
+Definition cb_entry (k : kcfg) (d : dev) (dt : Z) : dev :=
+  set_clock (fire_if_due k (begin_event d) (now d + dt)) (now d + dt).
 
 Definition step (o : fpops) (k : kcfg) (d : dev) (e : ev) : dev :=
-  let d := begin_event d in
   match e with
-  | Cb dt sm =>
-    let target := now d + dt in
-    let d := match delayed d with
-             | Some (_, due, _) => if due <=? target then fire_delayed k d else d
-             | None => d end in
-    let d := upd_misc d (last_direction d) target target in
-    let d := timer_cb o k d (sensor k d sm) in
-    upd_misc d (last_direction d) target target
-  | Task p t => add_task k d p t
-  | Relay v c sd => let d := set_relay k d v c sd in upd_misc d (last_direction d) (now d) (now d)
-  | Recal w ct ot => recalibrate k d w ct ot
+  | Cb dt sm => set_clock (timer_cb o k (cb_entry k d dt) (sensor k (cb_entry k d dt) sm)) (now d + dt)
+  | Task p t => add_task k (begin_event d) p t
+  | Relay v c sd => set_clock (set_relay k (begin_event d) v c sd) (now d)
+  | Recal w ct ot => recalibrate k (begin_event d) w ct ot
   end.
 
 Fixpoint run (o : fpops) (k : kcfg) (d : dev) (evs : list ev) : dev :=
